@@ -843,6 +843,17 @@ func ruleLimitScale(c *Ctx) {
 			}
 			n++
 			key := fmt.Sprintf("limit-scale.%s#%d", FuncKey(fd.Obj), n)
+			// clamp idiom: the operand is min(x, <bound derived from MaxInt64>)
+			clamped := false
+			for _, r := range as.Rhs {
+				if m := f.Mentions(r, w.blk); m["builtin.min"] && m["math.MaxInt64"] {
+					clamped = true
+				}
+			}
+			if clamped {
+				c.OK(key, c.P.Pos(as.Pos()), "the operand is clamped with min(x, bound derived from math.MaxInt64) before it is scaled")
+				continue
+			}
 			res := f.CheckGate(f.Entry(), map[*cfg.Block]bool{w.blk: true}, Guard{ID: "no-wrap", Doc: "the operand is compared with a bound derived from math.MaxInt64", Alts: [][]string{{"math.MaxInt64"}}, WholeOpen: true}, nil)
 			if res.OK {
 				c.OK(key, c.P.Pos(as.Pos()), "the scaled gas limit cannot wrap: "+res.Msg)
